@@ -2,9 +2,9 @@ package checks
 
 import (
 	"encoding/json"
-	"os"
 	"fmt"
 	"hash/fnv"
+	"os"
 	"sort"
 	"strings"
 	"testing"
@@ -22,7 +22,7 @@ type C11Case struct {
 	Data    DataCase   `json:"data"`
 	N       int        `json:"n"`
 	Salt    int        `json:"salt"`
-	Assign  []int      `json:"assign,omitempty"` // explicit assignment per distinct partition-key tuple (mod N)
+	Assign  []int      `json:"assign,omitempty"`   // explicit assignment per distinct partition-key tuple (mod N)
 	AllDims bool       `json:"all_dims,omitempty"` // probe only: split a key-less table by all dims, like the real leader
 	Queries []*h.Query `json:"queries"`
 }
